@@ -562,6 +562,160 @@ def check_entry(case):
     return out
 
 
+# -- the reply to a 1.0-form request on a 2.0 server honours the same customisation as the reply to a 2.0-form request ---------
+
+
+class _Counting(object):
+    """A stateful handler object (the handler is a bound method; the owner holds a lock like many real ones)."""
+
+    def __init__(self):
+        import threading
+        self.lock = threading.Lock()
+        self.calls = 0
+
+    def handle(self, obj, serialize_method, ignore_attribute, ignore, config):
+        with self.lock:
+            self.calls += 1
+        return {"__handled__": "stateful", "n": self.calls}
+
+
+FEATURES = ["stateful-bound-method-handler", "partial-handler", "callable-instance-handler", "none-entry", "custom-method-name", "custom-ignore-attribute",
+            "local-class", "everything"]
+
+
+def form_cases(tier):
+    for f in FEATURES:
+        for place in ("single", "batch"):
+            for sv in (2.0, 2):
+                yield (f, place, sv)
+
+
+def check_forms(case):
+    import functools
+    import json
+
+    from jsonrpclib.SimpleJSONRPCServer import SimpleJSONRPCDispatcher
+
+    feature, place, sv = case
+    out = Out(cls="forms/" + feature)
+    spec = ("dict", (("a",),), "custom-list", "none")
+    cls, fields, modname = classgen.build(spec)
+    owner = _Counting()
+    cfg = Config(version=sv)
+    every = feature == "everything"
+    if feature == "stateful-bound-method-handler" or every:
+        cfg.serialize_handlers[datetime.date] = owner.handle
+    if feature == "partial-handler":
+        cfg.serialize_handlers[datetime.date] = functools.partial(owner.handle)
+    if feature == "callable-instance-handler":
+        class H(object):
+            def __call__(self, *a):
+                return owner.handle(*a)
+        cfg.serialize_handlers[datetime.date] = H()
+    if feature == "none-entry" or every:
+        cfg.serialize_handlers[Other] = None  # an entry without a handler: the type is dumped by the built-in code wherever it occurs
+    if feature == "custom-method-name" or every:
+        cfg.serialize_method = "toJson"
+    if feature == "custom-ignore-attribute" or every:
+        cfg.ignore_attribute = "skipThese"
+    if feature == "local-class" or every:
+        cfg.classes.add(cls, "LocalAlias")
+
+    def give():
+        o = cls(1, "two", [3])
+        o.extra = "E"
+        p = beans.Plain()
+        p.when, p.other, p.obj, p.shown, p.hidden, p.skipThese = datetime.date(2020, 1, 2), Other(), o, 1, 2, ["hidden"]
+        return [p, {"k": p}]
+
+    d = SimpleJSONRPCDispatcher(config=cfg)
+    d.register_function(give)
+    results = {}
+    for form in ("2.0", "1.0"):
+        req = {"method": "give", "params": [], "id": 1}
+        if form == "2.0":
+            req["jsonrpc"] = "2.0"
+        before = owner.calls
+        try:
+            r = json.loads(d._marshaled_dispatch(json.dumps([req] if place == "batch" else req)))
+        except Exception as ex:
+            return out.bad("C20/forms/raises-%s" % type(ex).__name__, "%r: the %s request raised %r" % (case, form, ex))
+        r = r[0] if isinstance(r, list) else r
+        if "result" not in r or r.get("error"):
+            return out.bad("C20/forms/request-fails", "%r: the %s request was answered %r" % (case, form, r))
+        text = json.dumps(r["result"], sort_keys=True)
+        text = text.replace('"n": %d' % (before + 1), '"n": <first>').replace('"n": %d' % (before + 2), '"n": <second>')
+        results[form] = (text, owner.calls - before)
+    if results["1.0"] != results["2.0"]:
+        out.bad("C20/forms/customisation-depends-on-the-request-form", "%r: result of the 2.0 request %r (handler calls %d), of the 1.0 request %r (handler calls %d)"
+                % (case, results["2.0"][0][:300], results["2.0"][1], results["1.0"][0][:300], results["1.0"][1]))
+    return out
+
+
+def leg_forms(part, tier, shard, nshards):
+    drive(part, "request-forms", form_cases(tier), shard, nshards, check_forms)
+
+
+# -- several beans in one dump: each is dumped with its own ignore list, the caller's list is left alone -------------------------
+
+
+def aliasing_cases(tier):
+    for order in ("ignoring-first", "ignoring-last", "two-ignoring"):
+        for call_ignore in ((), ("zz",), ("b0",)):
+            for ctx in ("list", "dict", "bean"):
+                yield (order, call_ignore, ctx)
+
+
+def check_aliasing(case):
+    order, call_ignore, ctx = case
+    out = Out(cls="several-beans")
+    A, fa, _ = classgen.build(("dict", (("a", "b"),), "none", "none"))
+    B, fb, _ = classgen.build(("slots", (("a", "b"),), "none", "none"))
+    a, b = A(), B()
+    a.a0, a._b0, b.a0, b._b0 = "A-a", "A-b", "B-a", "B-b"
+    try:
+        A._ignore = ["a0"]
+        if order == "two-ignoring":
+            B._ignore = ["_b0"]
+        pair = [a, b] if order != "ignoring-last" else [b, a]
+        value = pair if ctx == "list" else ({"x": pair[0], "y": pair[1]} if ctx == "dict" else None)
+        if ctx == "bean":
+            value = beans.Plain()
+            value.items = list(pair)  # (a bean held directly by a field is of an unsupported type and is omitted: hold them in a list)
+        mine = list(call_ignore)
+        for attempt in (1, 2):
+            try:
+                d = jsonclass.dump(value, ignore=mine if call_ignore else None)
+            except Exception as ex:
+                return out.bad("C20/dump-raises-%s" % type(ex).__name__, "%r raised %r" % (case, ex))
+            if mine != list(call_ignore):
+                out.bad("C20/dump-modifies-the-caller-ignore-list", "%r: the ignore argument is %r after dump #%d" % (case, mine, attempt))
+                mine = list(call_ignore)
+            nb = find_bean(d, B.__name__) if B.__name__ != A.__name__ else None
+            text = repr(d)
+            want_b = {"a0": "B-a", "_b0": "B-b"}
+            if order == "two-ignoring":
+                want_b.pop("_b0")
+            for k in call_ignore:
+                want_b.pop(k.replace("b0", "_b0") if k == "b0" else k, None)
+            for k, v in want_b.items():
+                if v not in text:
+                    out.bad("C20/ignore-list-of-one-object-applied-to-another", "%r: dump #%d lost field %s of the object that does not ignore it: %r" % (case, attempt, k, d))
+            if "A-a" in text:
+                out.bad("C20/ignored-attribute-appears/nested", "%r: the ignored field a0 of the first class appears: %r" % (case, d))
+            if "A-b" not in text:
+                out.bad("C20/field-set-differs/nested", "%r: field _b0 of the ignoring object is missing: %r" % (case, d))
+    finally:
+        for c in (A, B):
+            if "_ignore" in vars(c):
+                delattr(c, "_ignore")
+    return out
+
+
+def leg_aliasing(part, tier, shard, nshards):
+    drive(part, "several-beans", aliasing_cases(tier), shard, nshards, check_aliasing)
+
+
 def leg_entry(part, tier, shard, nshards):
     drive(part, "entry-points", entry_cases(tier), shard, nshards, check_entry)
 
@@ -695,12 +849,15 @@ def leg_rpc_ser(part, tier, shard, nshards):
     drive(part, "rpc-method-name", rpc_ser_cases(tier), shard, nshards, check_rpc_ser)
 
 
-LEGS = {"entry-points": leg_entry, "customisation": leg_custom, "method-name": leg_ser, "rpc-method-name": leg_rpc_ser, "config-history": leg_history}
+LEGS = {"request-forms": leg_forms, "several-beans": leg_aliasing, "entry-points": leg_entry, "customisation": leg_custom, "method-name": leg_ser, "rpc-method-name": leg_rpc_ser, "config-history": leg_history}
 
 META = {
     "technique": "bounded-exhaustive enumeration of generated classes, ignore lists, handler tables, contexts and configured names against a reference walk "
     "of the expected dump output",
-    "rule": "entry-points: {ServerProxy call, notification, MultiCall job, MultiCall notification, mixed batch} x versions x {configured serialisation-method name, "
+    "rule": "request-forms: a 2.0 server (version 2.0 and 2) whose Config has a stateful bound-method / partial / callable-instance handler, a handler-table entry "
+    "without handler, a custom method name, a custom ignore attribute, a local class, or all of them: the result of a 1.0-form request equals that of the 2.0-form "
+    "request, with the same number of handler calls, single and in a batch; several-beans: two beans in one dump (list, dict, fields of a third bean) with "
+    "different ignore lists x per-call list, dumped twice (each keeps its own fields, the caller's list is untouched); entry-points: {ServerProxy call, notification, MultiCall job, MultiCall notification, mixed batch} x versions x {configured serialisation-method name, "
     "handler, ignore-attribute name} observed in the request text; server: {no, 1.0, 2.0, batch} earlier requests x configuration change {handler added, ignore "
     "attribute renamed, Config replaced} x request form, the result must follow the configuration in force; 8 generated class hierarchies (dict/slots/mixed storage, public/protected/mangled fields) x every pair of subsets of the field names as "
     "per-object and per-call ignore lists x 6 contexts; x 7 handler tables (user class, date, tuple, str, bool, user+date, unrelated class) x contexts x "
@@ -717,6 +874,10 @@ META = {
 
 def replay(case):
     c = eval(case["case"], {"__builtins__": {}}, {})
+    if case["leg"] == "request-forms":
+        return check_forms(c).viols
+    if case["leg"] == "several-beans":
+        return check_aliasing(c).viols
     if case["leg"] == "entry-points":
         return check_entry(c).viols
     if case["leg"] == "method-name":
